@@ -55,6 +55,11 @@ OPS += [
     # titles containing the path syntax's own '=' (an unquoted title in a path runs to the next '|')
     ['addtsec', 'sec', 'env=prod'], ['addtsec', 'sec', 'env'], ['rmsec', 'sec=env=prod'], ['rmsec', 'sec=env'], ['set', 'int', 'sec=env=prod|x', 4, None],
     ['set', 'int', 'sec=env|x', 5, None], ['rmtsec', 'sec', 'env=prod'],
+    # the empty title is a title like any other
+    ['addtsec', 'sec', ''], ['rmtsec', 'sec', ''], ['optrmtsec', 'sec', ''], ['set', 'int', "sec=''|x", 8, None],
+    # a string value may be NULL
+    ['set', 'str', 's', None, None], ['set', 'str', 'sl', None, 1], ['set', 'str', 'sl', None, 2], ['optset', 'str', 'sl', None, 0], ['setlist', 'sl', 'str', ['p', None]],
+    ['addlist', 'sl', 'str', [None]],
 ]
 
 RULE = ('all call sequences up to depth N over %d concrete calls (typed setters at index 0/1/2/3, setlist, addlist, setmulti good/bad, setopt, '
